@@ -1,4 +1,6 @@
+mod c01;
 mod c02;
+mod c03;
 mod c04;
 mod c06;
 mod c07;
@@ -6,6 +8,7 @@ mod c11;
 mod c16;
 mod c18;
 mod c19;
+mod fstrace;
 mod model;
 mod util;
 
@@ -21,7 +24,9 @@ fn main() {
     let args = Args::parse(&argv[1..]);
     quiet_panics();
     let out = match cmd.as_str() {
+        "c01" => c01::run(&args),
         "c02" => c02::run(&args),
+        "c03" => c03::run(&args),
         "c04" => c04::run(&args, "C04"),
         "c20" => c04::run(&args, "C20"),
         "c11" => c11::run(&args),
